@@ -1,3 +1,4 @@
+import WS.Lemmas.AuditGaps
 import WS.Lemmas.Writer
 import WS.Lemmas.WireInv
 import WS.Lemmas.WriterExtras
@@ -80,6 +81,20 @@ example :
     let s0 : W := { newW true 16 false false with faults := [(1, .short 3 7)] }
     (writeMessage s0 2 [9, 9, 9, 9, 9]).2.wire = [130, 5, 9] ∧ (writeMessage s0 2 [9, 9, 9, 9, 9]).2.writeErr = some (.transport 7) := by
   decide
+
+open WS.Codec WS.ReaderDecodes WS.RoleGeneric WS.AuditGaps in
+/-- fault ⇒ sticky: whatever makes a frame write fail — the sticky error, a failing SetWriteDeadline, a failing
+    or short transport write — the connection's sticky write error is set afterwards … -/
+theorem connWrite_error_is_sticky (s : W) (ft d : Int) (b0 b1 : Bytes) (h : (connWrite s ft d b0 b1).1.isSome) :
+    (connWrite s ft d b0 b1).2.writeErr.isSome := by
+  first | exact AuditGaps.connWrite_error_is_sticky .. | (apply AuditGaps.connWrite_error_is_sticky <;> assumption)
+
+open WS.Codec WS.ReaderDecodes WS.RoleGeneric WS.AuditGaps in
+/-- … and on a connection that was healthy it is exactly the error that was returned -/
+theorem connWrite_error_latched (s : W) (ft d : Int) (b0 b1 : Bytes) (e : WErr) (hs : s.writeErr = none)
+    (h : (connWrite s ft d b0 b1).1 = some e) : (connWrite s ft d b0 b1).2.writeErr = some e := by
+  first | exact AuditGaps.connWrite_error_latched .. | (apply AuditGaps.connWrite_error_latched <;> assumption)
+
 
 /-! ### non-vacuity -/
 section NonVacuity
